@@ -33,6 +33,8 @@ def gen_case(rng):
                          integrate_path=rng.random() < 0.25, integrate_t=rng.random() < 0.25, smear=rng.random() < 0.3),
              repeat=rng.choice([1, 1, 2, 5]), t_slew=rng.choice([0.0, 10.0, 123.5]))
     c["t_overwrite"] = rng.random() < 0.35
+    if rng.random() < 0.3:
+        c["ts_shift"] = rng.choice([0.5, 0.25, 3.0])       # frames carrying their own time axis (sample mid-points, an offset of a few samples)
     r = rng.random()
     if r < 0.25 and n >= 2:
         a = rng.randint(0, n - 1); b = rng.randint(a + 1, n)
